@@ -1,4 +1,4 @@
-"""C07 — snapshots: the v3 header codec (round trip, validation, bit flips).
+"""C07 — snapshots: the v3 header codec (round trip, validation, bit flips) and the file protocol (save/load round trip, interrupted save).
 SnapshotHeader::{to_raw_bytes, from_raw_bytes, validate, is_compressed, new, new_compressed} from tensor_store's MIR."""
 import sys
 import os
@@ -9,7 +9,7 @@ ck = Check('C07')
 ex = ck.executor('tensor_store', unroll=32)
 P = ex.prog
 ck.bounds = {'header fields': 'every magic[4], version u32, flags u32, entry_count u64', 'bit flips': 'each of the 64 bits of bytes 0..7 of a valid header'}
-ck.assumptions = ['NOT decided: slab contents round trip, zstd, tensor-train tolerance, temp-file + rename atomicity (store and file-system state outside the executor)']
+ck.assumptions = ['NOT decided: slab contents round trip (what snapshot()/restore() put into and take out of the image), zstd itself, tensor-train tolerance']
 F = lambda n: P.field('SnapshotHeader', n)
 
 
@@ -96,7 +96,13 @@ for ctor in ('SnapshotHeader::new', 'SnapshotHeader::new_compressed'):
             ck.require(ex, 'H3_bit_flips_rejected', r3.pc, None, r3.retval == z3.BoolVal(ctor.endswith('compressed')),
                        lambda m: {'ctor': ctor, 'bit': mval(m, bit)}, lambda m, w: 'compressed-flag')
 
+T = ck.tier
+exec(open(os.path.join(os.path.dirname(os.path.abspath(__file__)), 'c07_files.py')).read())
+
 for v in ck.violations:
+    if v['witness'].get('files'):
+        v['native'], v['replayed'] = files_replay(v['witness'])
+        continue
     rep = Replay.call({'op': 'snapshot_header', **v['witness']})
     v['native'] = rep
     v['replayed'] = rep.get('violates')
